@@ -204,17 +204,17 @@ func newLogin(mode config.ForwardingMode, secret []byte, protocol proto.Protocol
 	ca, cb := net.Pipe()
 	go io.Copy(io.Discard, cb)
 	client, _ := netmc.NewMinecraftConn(context.Background(), addrConn{Conn: ca, remote: netutil.NewAddr(remote, "tcp")},
-		proto.ServerBound, 0, time.Second, -1, nil)
+		proto.ServerBound, 0, time.Minute, -1, nil)
 	client.SetProtocol(protocol)
 	client.SetState(state.Play)
 	ba, bb := net.Pipe()
-	backend, _ := netmc.NewMinecraftConn(context.Background(), ba, proto.ClientBound, 0, 2*time.Second, -1, nil)
+	backend, _ := netmc.NewMinecraftConn(context.Background(), ba, proto.ClientBound, 0, time.Minute, -1, nil)
 	backend.SetProtocol(protocol)
 	backend.SetState(state.Login)
 	backend.AddSessionHandler(state.Play, nopHandler{})
 	resp := make(chan *packet.LoginPluginResponse, 8)
 	go func() {
-		rd := netmc.NewReader(bb, proto.ServerBound, 10*time.Second, logr.Discard())
+		rd := netmc.NewReader(bb, proto.ServerBound, time.Minute, logr.Discard())
 		rd.SetProtocol(protocol)
 		rd.SetState(state.Login)
 		for {
@@ -252,7 +252,7 @@ func (l *login) request(id int, channel string, data []byte) *packet.LoginPlugin
 	select {
 	case p := <-l.resp:
 		return p
-	case <-time.After(3 * time.Second):
+	case <-time.After(2 * time.Minute):
 		return nil
 	}
 }
@@ -282,7 +282,7 @@ func main() {
 	rng := lib.NewRng(f.Seed)
 	out := lib.NewOut("C20", f)
 	out.Imports = "From Verif Require Import Model.Prim Model.Forwarding.\n"
-	out.Rule = "three streams: (1) findForwardingVersion called directly for requested ints {-2^31,-129,-128,-1,0..6,127,128,255,256,2^31-1,random} x protocols {47,758,759,760,761,762,767} x key kinds {none,V1,V2,nil revision,custom revision}; (2) velocity:player_info LoginPluginMessage through the real backendLoginSessionHandler on pipe connections for EVERY request byte 0..255 x protocols {759,760,761,767} x key kinds {none,V1,V2} plus empty and two-byte request data (body after the 32 MAC bytes judged in Coq, MAC not evaluated); (3) random secrets (0..100 bytes), IPs, names, 0-3 properties, keys, request bytes 0..5/127/128/255 with HMAC-SHA256 re-computed in Coq (bodies < 400 bytes); (4) sequences of 1-4 login-phase packets (forwarding request / other plugin request / login success) in velocity, none and legacy mode. Stream (2) is exhaustive and independent of the seed and tier; (1),(3),(4) scale with the tier. distinct = distinct Coq terms; non-trivial = chosen version above 1, or a refused / answered login event"
+	out.Rule = "three streams: (1) findForwardingVersion called directly for requested ints {-2^31,-129,-128,-1,0..6,127,128,255,256,2^31-1,random} x protocols {47,758,759,760,761,762,767} x key kinds {none,V1,V2,nil revision,custom revision}; (2) velocity:player_info LoginPluginMessage through the real backendLoginSessionHandler on pipe connections for EVERY request byte 0..255 x protocols {759,760,761,767} x key kinds {none,V1,V2} plus empty and two-byte request data (body after the 32 MAC bytes judged in Coq, MAC not evaluated); (3) random secrets (0..100 bytes), IPs, names, 0-3 properties, keys, request bytes 0..5/127/128/255 with HMAC-SHA256 re-computed in Coq (bodies < 400 bytes), every 40th of them with a realistic big profile (signed textures ~2 KB, optionally a full-size LinkedV2 key and plugin properties) so that the payload exceeds 2 KiB; (4) sequences of 1-4 login-phase packets (forwarding request / other plugin request / login success) in velocity, none and legacy mode. Stream (2) is exhaustive and independent of the seed and tier; (1),(3),(4) scale with the tier. distinct = distinct Coq terms; non-trivial = chosen version above 1, or a refused / answered login event"
 
 	// ---- (1) direct version function ----
 	reqs := []int{-1 << 31, -129, -128, -1, 0, 1, 2, 3, 4, 5, 6, 127, 128, 255, 256, 1<<31 - 1}
@@ -363,7 +363,29 @@ func main() {
 		default:
 			data = r.Bytes(2)
 		}
-		emitRequest(r, data, pr, ks, secret, prof, ip, true, "mac")
+		stream := "mac"
+		if macDone%40 == 5 {
+			// a realistic big profile: signed textures (~1.3 KB value, ~0.7 KB signature) and/or several
+			// plugin properties, with a full-size LinkedV2 key; the payload exceeds 2 KiB (the initial
+			// capacity of CreateForwardingData's buffer). Few of them: SHA-256 in Coq costs ~20 ms/block.
+			stream = "mac-large"
+			const b64 = "ABCDEFGHIJKLMNOPQRSTUVWXYZabcdefghijklmnopqrstuvwxyz0123456789+/"
+			prof.Properties = []profile.Property{{Name: "textures", Value: r.StringOver(b64, r.Range(1200, 1400)),
+				Signature: r.StringOver(b64, 684)}}
+			for j := r.Intn(3); j > 0; j-- {
+				prof.Properties = append(prof.Properties, profile.Property{Name: "plugin:data", Value: r.StringOver(b64, r.Range(100, 400))})
+			}
+			if r.Bool() {
+				pr = 760
+				ks = genKey(r, "v2", false)
+				ks.key.pub, ks.key.sig = r.Bytes(294), r.Bytes(512)
+				data = []byte{3}
+			} else {
+				pr = proto.Protocol(r.Pick(761, 767))
+				data = []byte{4}
+			}
+		}
+		emitRequest(r, data, pr, ks, secret, prof, ip, true, stream)
 	}
 
 	exh := rng.Fork()
